@@ -1143,7 +1143,7 @@ impl InstrFormat for OldeEclHooks {
 
     fn write_instr(&self, f: &mut BinWriter, emitter: &dyn Emitter, instr: &RawInstr) -> WriteResult {
         f.write_i32(instr.time)?;
-        f.write_u16(instr.opcode)?;
+        f.write_u16(llir::non_terminal_opcode(emitter, instr.opcode)?)?;
         f.write_i16(llir::header_field(emitter, "instruction size", self.instr_size(instr) as i64)?)?;
 
         f.write_u8(0)?;
